@@ -81,9 +81,24 @@ def State.setCur (s : State) (l v : Nat) : State := { s with cursors := s.cursor
 /-- `b[lo:hi]` (bounds are checked by the callers) -/
 def slice (b : Bytes) (lo hi : Nat) : Bytes := (b.take hi).drop lo
 
+/-- `k ≤ len(buf)` computed without walking the whole (multi-megabyte) buffer -/
+def leLen : Nat → Bytes → Bool
+  | 0, _ => true
+  | _ + 1, [] => false
+  | k + 1, _ :: t => leLen k t
+
+theorem leLen_iff : ∀ (k : Nat) (buf : Bytes), leLen k buf = true ↔ k ≤ buf.length
+  | 0, _ => by simp [leLen]
+  | _ + 1, [] => by simp [leLen]
+  | k + 1, _ :: t => by simp [leLen, leLen_iff k t]
+
+/-- the bound check `k ≤ len(buf)` of a Go index/slice expression (decided by `leLen`) -/
+def LeLen (k : Nat) (buf : Bytes) : Prop := k ≤ buf.length
+instance (k : Nat) (buf : Bytes) : Decidable (LeLen k buf) := decidable_of_iff _ (leLen_iff k buf)
+
 /-- `copy(buf[a:a+len(src)], src)`; `none` = slice bounds out of range -/
 def copyAt (buf : Bytes) (a : Nat) (src : Bytes) : Option Bytes :=
-  if a + src.length ≤ buf.length then some (buf.take a ++ src ++ buf.drop (a + src.length)) else none
+  if LeLen (a + src.length) buf then some (buf.take a ++ src ++ buf.drop (a + src.length)) else none
 
 /-- `copy(h.buffer[h.cursors[level]:h.cursors[level]+len(src)], src); h.cursors[level] += len(src)` -/
 def State.put (s : State) (level : Nat) (src : Bytes) : Option State :=
@@ -99,7 +114,7 @@ def State.levelSize (s : State) (level : Nat) : Int :=
     `data = buffer[lo:lo+len]`: returns `(sp, hashes)`; `none` = slice bounds out of range -/
 def wrapLoop (buf : Bytes) (lo len refSize : Nat) (i sp : Nat) (hashes : Bytes) : Option (Nat × Bytes) :=
   if i < len then
-    if lo + i + refSize + 8 ≤ buf.length then
+    if LeLen (lo + i + refSize + 8) buf then
       wrapLoop buf lo len refSize (i + (refSize + 8))
         ((sp + fromLe64 (slice buf (lo + i) (lo + i + 8))) % 2 ^ 64)          -- `sp += Uint64(data[i:i+8])`
         (hashes ++ slice buf (lo + i + 8) (lo + i + refSize + 8))             -- `append(hashes, data[i+8:i+refSize+8]...)`
@@ -133,7 +148,7 @@ def wrapFullLevel (P : Params) (s : State) (level : Nat) : Except Err State :=
   if maxLevel ≤ level then .error .panic else                   -- `h.cursors[level+1]` with `level+1 = 9`
   let lo := s.cur (level + 1)
   let hi := s.cur level
-  if ¬ (lo ≤ hi ∧ hi ≤ s.buffer.length) then .error .panic else -- `data := h.buffer[lo:hi]`
+  if ¬ (lo ≤ hi ∧ LeLen hi s.buffer) then .error .panic else    -- `data := h.buffer[lo:hi]`
   match wrapLoop s.buffer lo (hi - lo) P.refSize 0 0 [] with
   | none => .error .panic
   | some (sp, hashes) =>
@@ -187,7 +202,7 @@ def trieSum (P : Params) (s : State) : Except Err (Bytes × State) :=
   | .ok s =>
     let oneRef : Int := (P.refSize + 8 : Nat)
     if s.levelSize 8 ≠ oneRef then .error .inconsistent
-    else if ¬ (s.cur 8 ≤ s.buffer.length) then .error .panic                 -- `h.buffer[0:h.cursors[8]]`
+    else if ¬ LeLen (s.cur 8) s.buffer then .error .panic                 -- `h.buffer[0:h.cursors[8]]`
     else
       let data := slice s.buffer 0 (s.cur 8)
       if ¬ (8 ≤ data.length) then .error .panic                              -- `data[8:]`
